@@ -451,19 +451,25 @@ func c13Specs(tier string) []*clustermc.Spec {
 		n0, r int
 		p     uint64
 		data  bool
+		ports []int // other member names (simcluster.Opts.PortOf): another hash ring for the same events
 	}
 	// stored data is a dimension of its own for EVERY replica count: owners that still hold data
 	// stay listed, which is where the pruning / re-ordering logic of the distribution code lives
-	cfs := []cf{{1, 1, 7, false}, {2, 2, 7, false}, {3, 3, 13, false}, {2, 2, 7, true}, {2, 3, 7, true}, {3, 3, 7, true}}
+	cfs := []cf{{1, 1, 7, false, nil}, {2, 2, 7, false, nil}, {3, 3, 13, false, nil}, {2, 2, 7, true, nil}, {2, 3, 7, true, nil}, {3, 3, 7, true, nil},
+		{2, 2, 7, true, []int{0, 2, 4, 6, 8, 1, 3, 5, 7}}}
 	depth, maxM := 3, 4
 	if !quick {
 		depth, maxM = 4, 5
-		cfs = append(cfs, cf{3, 2, 13, true}, cf{1, 3, 7, false}, cf{2, 1, 13, true}, cf{1, 3, 13, true}, cf{3, 3, 13, true})
+		cfs = append(cfs, cf{3, 2, 13, true, nil}, cf{1, 3, 7, false, nil}, cf{2, 1, 13, true, nil}, cf{1, 3, 13, true, nil}, cf{3, 3, 13, true, nil},
+			cf{1, 3, 7, true, []int{8, 5, 2, 7, 4, 1, 6, 3, 0}})
 	}
 	var out []*clustermc.Spec
 	for _, c := range cfs {
 		p := &c13Params{Name: fmt.Sprintf("N0=%d R=%d P=%d data=%v", c.n0, c.r, c.p, c.data), MaxMembers: maxM, Depth: depth, Data: c.data,
-			Opts: simcluster.Opts{N: c.n0, Replicas: c.r, WriteQ: 1, ReadQ: 1, Partitions: c.p}}
+			Opts: simcluster.Opts{N: c.n0, Replicas: c.r, WriteQ: 1, ReadQ: 1, Partitions: c.p, PortOf: c.ports}}
+		if c.ports != nil {
+			p.Name += fmt.Sprintf(" names=%v", c.ports[:4])
+		}
 		out = append(out, &clustermc.Spec{
 			Name: p.Name, Depth: depth,
 			New:        func() interface{} { return c13New(p) },
